@@ -965,6 +965,120 @@ fn serve_and_drop(cfg: &Cfg) {
     }
 }
 
+/// Dropping the daemon while a listener of the device keeps firing (a level-triggered descriptor the device
+/// never drains) - with the exit event *ahead* of that listener in the worker's ready list: the worker is held
+/// right after a wake-up, the exit event is raised, then the listener becomes ready, then the worker goes on.
+/// Every later batch is [exit event, listener]; the worker must still terminate.
+fn exit_with_busy_listener(cfg: &Cfg) {
+    let c = ctl::global();
+    for two_workers in [false, true] {
+        c.reset();
+        let masks = if two_workers { vec![0b01, 0b10] } else { vec![0b11] };
+        let bc = BCfg { num_queues: 2, masks, ..BCfg::default() };
+        let mut s: Sess<V> = Sess::new(bc);
+        let wi = s.workers.len() - 1;
+        let h = s.daemon.get_epoll_handlers();
+        let trigger = sys::eventfd(0, libc::EFD_NONBLOCK);
+        let busy = sys::eventfd(0, libc::EFD_NONBLOCK);
+        let r1 = h[wi].register_listener(trigger, vmm_sys_util::epoll::EventSet::IN, 8);
+        let r2 = h[wi].register_listener(busy, vmm_sys_util::epoll::EventSet::IN, 7);
+        drop(h);
+        if r1.is_err() || r2.is_err() {
+            report::inconclusive("busy-listener: registration refused");
+            continue;
+        }
+        let wtid = s.workers[wi].tid;
+        c.set_filter(move |_, p, ctx| p == "w.woken" && ctx == 8);
+        c.arm();
+        sys::eventfd_write(trigger, 1);
+        let held = c.wait_arrival(5000, |w| w.point == "w.woken" && w.tid == wtid).is_some();
+        // the trigger has done its job: drained by the harness so that it is not ready again
+        let mut b = [0u8; 8];
+        unsafe { libc::read(trigger, b.as_mut_ptr() as *mut libc::c_void, 8) };
+        if !held {
+            c.reset();
+            report::inconclusive("busy-listener: worker did not arrive at the hold point");
+            continue;
+        }
+        // helper: once the exit event of that worker is raised, make the listener ready, then let the worker go
+        let epfd = s.workers[wi].epfd;
+        let ordered = std::sync::Arc::new(AtomicBool::new(false));
+        let o2 = ordered.clone();
+        let helper = std::thread::spawn(move || {
+            let raised = sys::wait_until(10_000, || {
+                sys::epoll_targets(epfd).iter().any(|(tfd, _, data)| *data == 2 && sys::eventfd_count(*tfd).is_some_and(|n| n > 0))
+            });
+            if raised {
+                sys::eventfd_write(busy, 1);
+                o2.store(true, Ordering::SeqCst);
+            }
+            ctl::global().free_run();
+        });
+        let t = s.teardown();
+        let _ = helper.join();
+        c.reset();
+        report::eval(1);
+        report::count("drop.busy_listener", 1);
+        report::distinct_str(&format!("drop-busy-listener:{two_workers}"));
+        if !ordered.load(Ordering::SeqCst) {
+            report::inconclusive("busy-listener: the exit event was not seen raised");
+            continue;
+        }
+        match t {
+            dmn::Teardown::Clean | dmn::Teardown::ExitDelivered(_) => report::sample("drop-busy-listener", jo! {"two_workers" => two_workers, "order_in_ready_list" => "exit event, then the listener"}),
+            dmn::Teardown::Stuck(why) => {
+                report::violation("C16:drop:listener-keeps-firing:worker-not-terminated", jo! {"two_workers" => two_workers, "certificate" => why, "order_in_ready_list" => "exit event, then the listener"}, cfg.replay("busylistener"));
+                std::process::exit(report::finish());
+            }
+            dmn::Teardown::Timeout => report::inconclusive("busy-listener: teardown watchdog expired"),
+        }
+        sys::close(trigger);
+        sys::close(busy);
+    }
+}
+
+/// Dropping the daemon after one of its workers has died in the device's code: the other workers are still
+/// signalled and terminate.
+fn drop_after_worker_failure(cfg: &Cfg) {
+    for failing in [0usize, 1] {
+        let bc = BCfg { num_queues: 3, masks: vec![0b001, 0b010, 0b100], ..BCfg::default() };
+        let mut s: Sess<V> = Sess::new(bc);
+        let tids: Vec<i32> = s.workers.iter().map(|w| w.tid).collect();
+        let h = s.daemon.get_epoll_handlers();
+        let efd = sys::eventfd(0, libc::EFD_NONBLOCK);
+        let r = h[failing].register_listener(efd, vmm_sys_util::epoll::EventSet::IN, 9);
+        drop(h);
+        if r.is_err() {
+            report::inconclusive("worker-failure: registration refused");
+            continue;
+        }
+        s.be.st.lock().unwrap().panic_on_event = Some(9);
+        sys::eventfd_write(efd, 1);
+        let died = sys::wait_until(5000, || !sys::threads().iter().any(|t| t.0 == tids[failing]));
+        report::eval(1);
+        report::count("drop.after_worker_failure", 1);
+        report::distinct_str(&format!("drop-after-failure:{failing}"));
+        if !died {
+            report::inconclusive("worker-failure: the worker did not end");
+            continue;
+        }
+        let t = s.teardown();
+        let left: Vec<i32> = tids.iter().copied().filter(|t| sys::threads().iter().any(|x| x.0 == *t)).collect();
+        let gone = left.is_empty() || sys::wait_until(3000, || !sys::threads().iter().any(|x| left.contains(&x.0)));
+        match t {
+            dmn::Teardown::Clean | dmn::Teardown::ExitDelivered(_) if gone => report::sample("drop-after-failure", jo! {"failed_worker" => failing}),
+            dmn::Teardown::Timeout => report::inconclusive("worker-failure: teardown watchdog expired"),
+            other => {
+                report::violation("C16:drop:after-a-worker-failure:worker-not-terminated", jo! {"failed_worker" => failing, "teardown" => format!("{other:?}"), "worker_threads_still_alive" => left.iter().map(|t| *t as i64).collect::<Vec<i64>>()}, cfg.replay("workerfailure"));
+                if !matches!(other, dmn::Teardown::Clean) {
+                    std::process::exit(report::finish());
+                }
+            }
+        }
+        sys::close(efd);
+    }
+}
+
 pub fn run(cfg: &Cfg) {
     report::assume("wait() result when the peer closes after a complete request whose reply then fails with EPIPE is not judged (SocketBroken is mapped to Ok by design)");
     dmn::install_hook();
@@ -1007,6 +1121,12 @@ pub fn run(cfg: &Cfg) {
     }
     if (part.is_empty() && cfg.shard == 3 % cfg.nshards.max(1)) || part == "reqshut" {
         request_shutdown_case(cfg);
+    }
+    if (part.is_empty() && cfg.shard == 5 % cfg.nshards.max(1)) || part == "workerfailure" {
+        drop_after_worker_failure(cfg);
+    }
+    if (part.is_empty() && cfg.shard == 4 % cfg.nshards.max(1)) || part == "busylistener" {
+        exit_with_busy_listener(cfg);
     }
     if (part.is_empty() && cfg.shard == 0) || part == "earlywait" {
         early_wait_case(cfg);
